@@ -68,7 +68,25 @@ func newPool() (*pool, error) {
 
 func (p *pool) cleanup() { os.RemoveAll(p.base) }
 
-func (p *pool) spawn() (*workerProc, error) {
+// raceBinary: the race-detector build of this program, if run.sh built it.
+func raceBinary() string {
+	self, err := os.Executable()
+	if err != nil {
+		return ""
+	}
+	rb := self + "-race"
+	if strings.HasSuffix(self, "-race") {
+		rb = self
+	}
+	if _, err := os.Stat(rb); err != nil {
+		return ""
+	}
+	return rb
+}
+
+func (p *pool) spawn() (*workerProc, error) { return p.spawnKind(false) }
+
+func (p *pool) spawnKind(race bool) (*workerProc, error) {
 	p.mu.Lock()
 	idx := p.nextIdx
 	p.nextIdx++
@@ -79,8 +97,17 @@ func (p *pool) spawn() (*workerProc, error) {
 	}
 	scratch := filepath.Join(p.base, fmt.Sprintf("w%d", idx))
 	os.MkdirAll(scratch, 0755)
+	var extra []string
+	if race {
+		self = raceBinary()
+		if self == "" {
+			return nil, fmt.Errorf("race-detector build of the simulator not found (run.sh builds it for C13)")
+		}
+		rl := filepath.Join(p.base, fmt.Sprintf("racelog-w%d", idx))
+		extra = []string{"GORACE=halt_on_error=0 log_path=" + rl, "SIM_RACE_LOG=" + rl, "GOMAXPROCS=4"}
+	}
 	cmd := exec.Command(self, "worker")
-	cmd.Env = append(os.Environ(), "SIM_SCRATCH="+scratch, "GOMAXPROCS=2", "GOTRACEBACK=single")
+	cmd.Env = append(append(os.Environ(), "SIM_SCRATCH="+scratch, "GOMAXPROCS=2", "GOTRACEBACK=single"), extra...)
 	cmd.Dir = scratch
 	in, err := cmd.StdinPipe()
 	if err != nil {
@@ -438,9 +465,18 @@ func coordinate(prop, tier string) int {
 		}
 	}
 
+	// C13: a share of the workers runs the race-detector build (extra monitor)
+	nRace := 0
+	if prop == "C13" && raceBinary() != "" && os.Getenv("SIM_NO_RACE") == "" {
+		nRace = nw / 5
+		if nRace < 1 {
+			nRace = 1
+		}
+	}
 	var wg sync.WaitGroup
 	for i := 0; i < nw; i++ {
 		wg.Add(1)
+		raceWorker := i < nRace
 		go func() {
 			defer wg.Done()
 			var w *workerProc
@@ -460,6 +496,11 @@ func coordinate(prop, tier string) int {
 				mu.Unlock()
 				seed := baseSeed*1000003 + uint64(id)
 				job := Job{ID: id, Prop: prop, Tier: tier, Seed: seed, Mode: jobMode(info.mode, id), WantPlan: id < 2}
+				if raceWorker {
+					// plain run of the generated plan; the derived runs of the
+					// sweep mode would cost ten times as much under the detector
+					job.Race, job.Mode = true, ""
+				}
 				var msg *Msg
 				for attempt := 0; attempt < 40; attempt++ {
 					if w == nil || w.jobs >= 400 {
@@ -467,7 +508,7 @@ func coordinate(prop, tier string) int {
 							w.stop()
 						}
 						var err error
-						w, err = pl.spawn()
+						w, err = pl.spawnKind(raceWorker)
 						if err != nil {
 							mu.Lock()
 							harness = "cannot start worker: " + err.Error()
@@ -588,7 +629,11 @@ func coordinate(prop, tier string) int {
 		vv := bySig[sig]
 		plan := vv.plan
 		if plan == nil {
-			pf := core.ProfileFor(prop, tier, vv.job.Seed)
+			prof := prop
+			if vv.job.Race && prof == "C13" {
+				prof = "C13R"
+			}
+			pf := core.ProfileFor(prof, tier, vv.job.Seed)
 			plan = core.Generate(pf, vv.job.Seed)
 		}
 		path, confirmed, detail := minimiseAndWrite(pl, prop, vv.job, plan, vv.v)
@@ -766,6 +811,7 @@ type ReplayFile struct {
 	Detail    string            `json:"detail"`
 	Seed      uint64            `json:"seed"`
 	Mode      string            `json:"mode,omitempty"`
+	Race      bool              `json:"race,omitempty"` // found by the race-detector build: replay needs it too
 	EventHash string            `json:"event_hash"`
 	Plan      *core.Plan        `json:"plan"`
 }
@@ -791,7 +837,7 @@ func runPlanJob(pl *pool, job Job) (*core.RunResult, string) {
 	for attempt := 0; attempt < 40; attempt++ {
 		if w == nil {
 			var err error
-			w, err = pl.spawn()
+			w, err = pl.spawnKind(job.Race)
 			if err != nil {
 				return nil, err.Error()
 			}
@@ -829,7 +875,7 @@ func minimiseAndWrite(pl *pool, prop string, job Job, plan *core.Plan, v *core.V
 		mode = ""
 	}
 	run := func(p *core.Plan) *core.Violation {
-		res, _ := runPlanJob(pl, Job{ID: 0, Prop: prop, Tier: job.Tier, Seed: job.Seed, Plan: p, Mode: mode})
+		res, _ := runPlanJob(pl, Job{ID: 0, Prop: prop, Tier: job.Tier, Seed: job.Seed, Plan: p, Mode: mode, Race: job.Race})
 		return hasSig(res, sig)
 	}
 	best := plan.Clone()
@@ -852,7 +898,7 @@ func minimiseAndWrite(pl *pool, prop string, job Job, plan *core.Plan, v *core.V
 			return run(p) != nil
 		}, budget)
 	}
-	res, h := runPlanJob(pl, Job{ID: 0, Prop: prop, Tier: job.Tier, Seed: job.Seed, Plan: best, Mode: mode})
+	res, h := runPlanJob(pl, Job{ID: 0, Prop: prop, Tier: job.Tier, Seed: job.Seed, Plan: best, Mode: mode, Race: job.Race})
 	if h != "" {
 		return "", false, h
 	}
@@ -860,14 +906,14 @@ func minimiseAndWrite(pl *pool, prop string, job Job, plan *core.Plan, v *core.V
 	if fv == nil {
 		return "", false, "minimised plan lost the violation"
 	}
-	rf := &ReplayFile{Property: prop, Signature: sig, Oracle: fv.Oracle, Features: fv.Features, Detail: fv.Detail, Seed: job.Seed, Mode: mode, EventHash: res.EventHash, Plan: best}
+	rf := &ReplayFile{Property: prop, Signature: sig, Oracle: fv.Oracle, Features: fv.Features, Detail: fv.Detail, Seed: job.Seed, Mode: mode, Race: job.Race, EventHash: res.EventHash, Plan: best}
 	b, _ := json.MarshalIndent(rf, "", " ")
 	dir := filepath.Join(verifDir(), "replays", prop)
 	os.MkdirAll(dir, 0755)
 	path = filepath.Join(dir, planHash(best)+".json")
 	os.WriteFile(path, b, 0644)
 	// replay once more in a fresh process; it must fail identically
-	res2, h := runPlanJob(pl, Job{ID: 0, Prop: prop, Tier: job.Tier, Seed: job.Seed, Plan: best, Mode: mode})
+	res2, h := runPlanJob(pl, Job{ID: 0, Prop: prop, Tier: job.Tier, Seed: job.Seed, Plan: best, Mode: mode, Race: job.Race})
 	if h != "" || hasSig(res2, sig) == nil || res2.EventHash != res.EventHash {
 		return path, false, "replay in a fresh process did not reproduce the identical failure"
 	}
@@ -896,7 +942,7 @@ func replay(path string) int {
 		return 2
 	}
 	defer pl.cleanup()
-	res, h := runPlanJob(pl, Job{ID: 0, Prop: rf.Property, Tier: "quick", Seed: rf.Seed, Plan: rf.Plan, Mode: rf.Mode})
+	res, h := runPlanJob(pl, Job{ID: 0, Prop: rf.Property, Tier: "quick", Seed: rf.Seed, Plan: rf.Plan, Mode: rf.Mode, Race: rf.Race})
 	if h != "" {
 		fmt.Println("HARNESS-TROUBLE:", h)
 		return 2
